@@ -21,6 +21,7 @@ stream, `scheduled p` = those whose epoch is divisible by `p` (Int divisibility 
 import Mathlib.Data.List.Forall2
 import QV.Model.Callbacks
 import QV.Lemmas.Callbacks
+import QV.Lemmas.Stats
 import QV.Props.C12
 
 namespace QV.Props
@@ -1064,6 +1065,54 @@ theorem C17_independent (evs : List (Ev W)) :
       obtain ⟨mid, hm1, hm2⟩ := hmid
       rw [hm1]
       exact (ih mid res).mpr hm2
+
+/-! ### the evaluator's names, CSV columns and attribute names are the observables' names -/
+
+section columns
+
+theorem dictSet_eq {K B : Type} [BEq K] [LawfulBEq K] (d : Dict K B) (k : K) (v : B) :
+    Dict.set d k v = Stats.dictSet d k v := by
+  unfold Dict.set Stats.dictSet
+  have hc : d.keys.contains k = d.any (fun e => e.1 == k) := by
+    rw [Bool.eq_iff_iff]
+    simp only [Dict.keys, List.contains_iff_mem, List.mem_map, List.any_eq_true, beq_iff_eq]
+  rw [hc]
+  split
+  · refine List.map_congr_left (fun e _ => ?_)
+    by_cases h : e.1 == k
+    · have : e.1 = k := by simpa using h
+      simp [this]
+    · simp [h]
+  · rfl
+
+theorem ofPairs_eq_systemInit {K B : Type} [BEq K] [LawfulBEq K] (l : List (K × B)) :
+    Dict.ofPairs l = Stats.systemInit l := by
+  unfold Dict.ofPairs Stats.systemInit
+  congr 1
+  funext d kv
+  exact dictSet_eq d kv.1 kv.2
+
+/-- **C17 columns** — `names`, and with them the CSV header and the attribute names `evaluator.<name>`, of an
+`ObservableEvaluator` are the NAMES of the observables it was given, each once, in order of first occurrence (the key
+order of the `System` dictionary, `C13_system_keys_of_names`); the header reads `epoch`, then for every such name
+`<name>_mean`, `<name>_variance`, `<name>_std_error` in this order. (For composites the names are `exprText`,
+`C16_name_of_build`.) -/
+theorem C17_columns_of_names (c : ObservableEvaluator W V) :
+    c.names = Stats.firstOcc c.obsNames ∧
+    c.csvFields.map Field.text = "epoch" :: (Stats.firstOcc c.obsNames).flatMap
+      (fun o => [o ++ "_" ++ "mean", o ++ "_" ++ "variance", o ++ "_" ++ "std_error"]) := by
+  have hn : c.names = Stats.firstOcc c.obsNames := by
+    unfold ObservableEvaluator.names
+    rw [ofPairs_eq_systemInit]
+    have := Stats.systemInit_keys (c.obsNames.map (fun n => (n, ())))
+    simp only [List.map_map] at this
+    simpa [Dict.keys, Function.comp_def] using this
+  refine ⟨hn, ?_⟩
+  unfold ObservableEvaluator.csvFields
+  rw [hn]
+  simp only [List.map_cons, Field.text, List.map_flatMap, csvStats, List.map_nil]
+
+end columns
 
 /-! ### `verbose`: the printing branches and the order of effects -/
 
